@@ -150,6 +150,12 @@ func (o *OracleC10) AfterBlock(c *Chain, b *BlockCtx) []*Violation {
 			switch m.K {
 			case "submit_value":
 				qid := QueryID(QueryDataOf(m.Q))
+				// a later report of the same reporter for the same query in this block replaces this one (and its
+				// recorded stake snapshot): only the last one is what the store shows
+				if o.laterReport(c, b, i, mi, in.Actor, qid) {
+					o.count("reports_replaced_later_in_block(skipped)")
+					continue
+				}
 				var rep *ReportInfo
 				for ri := range reports {
 					r := &reports[ri]
@@ -237,7 +243,11 @@ func (o *OracleC10) AfterBlock(c *Chain, b *BlockCtx) []*Violation {
 							g = new(big.Int)
 						}
 						if d := new(big.Int).Abs(new(big.Int).Sub(w, g)); d.Cmp(big.NewInt(1)) > 0 {
-							out = append(out, o.v(b.H, "power", "Report.TokenOrigins", "backer-term-mismatch", "report by %s at height %d: recorded %s for a (selector, validator) pair, staking state says %s", signer, b.H, g, w))
+							var dbg []string
+							for _, kk := range ks {
+								dbg = append(dbg, fmt.Sprintf("%x|%x want=%v got=%v", []byte(kk)[:3], []byte(kk)[len(kk)-20:len(kk)-17], want[kk], gotTerms[kk]))
+							}
+							out = append(out, o.v(b.H, "power", "Report.TokenOrigins", "backer-term-mismatch", "report by %s at height %d (tx %d msg %d, first stake-relevant position %d): recorded %s for a (selector, validator) pair, staking state says %s; all terms: %v", signer, b.H, i, mi, firstStakeTx, g, w, dbg))
 							break
 						}
 					}
@@ -293,3 +303,18 @@ func (o *OracleC10) bondedStakePrev(c *Chain, addr sdk.AccAddress) *big.Int {
 }
 
 func (o *OracleC10) End(c *Chain) []*Violation { return nil }
+
+func (o *OracleC10) laterReport(c *Chain, b *BlockCtx, ti, mi, actor int, qid []byte) bool {
+	for i := ti; i < len(b.Txs); i++ {
+		in := c.IntentOfTx(b, i)
+		if in == nil || b.Txs[i].Code != 0 || in.Actor != actor {
+			continue
+		}
+		for j := range in.Msgs {
+			if (i > ti || j > mi) && in.Msgs[j].K == "submit_value" && eqBytes(QueryID(QueryDataOf(in.Msgs[j].Q)), qid) {
+				return true
+			}
+		}
+	}
+	return false
+}
